@@ -565,8 +565,11 @@ int XMLReader::parse(const char* text, xta_part_t syntax, const std::string& xpa
     // whoever takes expressions from the builder's stack next would get those instead of its own.
     auto* builder = dynamic_cast<ExpressionBuilder*>(parser);
     const auto depth = (builder != nullptr) ? builder->getExpressions().size() : 0;
+    const auto scopes = (builder != nullptr) ? builder->getFrameCount() : 0;
     const auto res = parse_XTA(text, parser, newxta, syntax, xpath);
     if (builder != nullptr) {
+        // ... nor the scope of a quantifier it was in: the next block would resolve its names there
+        builder->restoreFrames(scopes);
         auto& expressions = builder->getExpressions();
         if (res != 0) {
             while (expressions.size() > depth)
